@@ -239,11 +239,34 @@ pub fn gen_structured(r: &mut Rng, big: bool) -> rn::Msg {
             if x.len().max(y.len()) + 1 > room {
                 continue;
             }
-            SIBLING_KINDS.with(|k| *k.borrow_mut().entry(how).or_insert(0) += 1);
             let mut nx = suffix.clone();
             nx.insert(0, x);
             let mut ny = suffix.clone();
             ny.insert(0, y);
+            let mut how = how;
+            if r.chance(1, 3) {
+                // ... or names that print alike: "first\.last.S" and "first.last.S", "\7.S" and the label of one octet 7
+                let l = crate::refcodec::weakhash::twinnable_label(r);
+                if l.len() + 1 <= room {
+                    let mut base = suffix.clone();
+                    base.insert(0, l);
+                    let twins = crate::refcodec::weakhash::text_twins(&base);
+                    if !twins.is_empty() {
+                        let (t, kind) = r.pick(&twins).clone();
+                        if t.iter().map(|x| x.len() + 1).sum::<usize>() + 1 <= 255 {
+                            how = format!("text-twin:{}", kind);
+                            if r.bool() {
+                                nx = base;
+                                ny = t;
+                            } else {
+                                nx = t;
+                                ny = base;
+                            }
+                        }
+                    }
+                }
+            }
+            SIBLING_KINDS.with(|k| *k.borrow_mut().entry(how).or_insert(0) += 1);
             let mut rd = Vec::new();
             rn::push_name(&mut rd, &ny);
             match r.below(3) {
